@@ -52,6 +52,7 @@ def run_failing(
     wall_adapter: bool = False,
     with_handler: bool = False,
     max_actions: int = 200,
+    queue_wait: float = 0.0,
 ) -> RetryObs:
     """``exc_for_attempt(i)`` (i = 0,1,..) gives the exception attempt i raises, or None to succeed."""
     obs = RetryObs()
@@ -60,8 +61,19 @@ def run_failing(
     cfg = RunConfig(max_actions=max_actions)
     with EngineExec(ex, cfg, loop=loop) as e:
         counter = {"n": 0}
+        from vmc.events import Work
+
+        async def feeder(self, ctx, ev, inv):  # noqa: ANN001
+            # the failing event has to wait in the step queue behind another event that occupies the
+            # only worker for ``queue_wait`` seconds
+            ctx.send_event(Work(uid=0))
+            ctx.send_event(Work(uid=1))
+            return None
 
         async def start(self, ctx, ev, inv):  # noqa: ANN001
+            if queue_wait and getattr(ev, "uid", 1) == 0:
+                await asyncio.sleep(queue_wait)
+                return None
             i = counter["n"]
             counter["n"] += 1
             ri = ctx.retry_info()
@@ -76,7 +88,11 @@ def run_failing(
                 raise exc
             return StopEvent(result="ok")
 
-        steps = [make_step("start", [StartEvent], [StopEvent], start, retry_policy=policy, track=False)]
+        if queue_wait:
+            steps = [make_step("feeder", [StartEvent], [Work, None], feeder, track=False),
+                     make_step("start", [Work], [StopEvent, None], start, retry_policy=policy, track=False, num_workers=1)]
+        else:
+            steps = [make_step("start", [StartEvent], [StopEvent], start, retry_policy=policy, track=False)]
         if with_handler:
             async def on_err(self, ctx, ev, inv):  # noqa: ANN001
                 obs.failed_event = ev
